@@ -194,8 +194,8 @@ func verifSlot(x any, seen map[uintptr]bool) (sl VerifSlot) {
 		return
 	}
 	v := reflect.ValueOf(x)
-	for v.Kind() == reflect.Ptr {
-		if v.IsNil() {
+	for hops := 0; v.Kind() == reflect.Ptr; hops++ {
+		if v.IsNil() || hops > 16 { // (a pointer tied to itself, type P *P, never ends)
 			return
 		}
 		v = v.Elem()
